@@ -435,6 +435,20 @@ Fixpoint w_map_layers (w : wlayer) : list (Z * list src) :=
   | WGroup _ _ None ch => flat_map w_map_layers ch
   end.
 
+(* resolution range of a WMS layer / group (layer.py merge_layer_res_ranges, grid.py merge_resolution_range):
+   the configured range if there is one, else the ranges of the members (sources / sub layers) merged pairwise,
+   where merging with a member that has no range gives no range (= unlimited).
+   members: (member has a range, member renders the query);  hull_ok: the merged range (largest min_res, smallest
+   max_res) contains the query - only consulted when every member has a range.  renders_query = result. *)
+Definition merged_res_ok (members : list (bool * bool)) (hull_ok : bool) : bool :=
+  match members with
+  | [] => true                                   (* `if ranges:` - an empty list is no range *)
+  | _ => if forallb fst members then hull_ok else true
+  end.
+
+Definition layer_res_ok (explicit : option bool) (members : list (bool * bool)) (hull_ok : bool) : bool :=
+  match explicit with Some b => b | None => merged_res_ok members hull_ok end.
+
 (* odict: assignment to an existing key keeps its position *)
 Definition odict := list (Z * list src).
 
